@@ -55,15 +55,15 @@ func Run(o *drv.Out) {
 	for ci := 0; ci < nCases; ci++ {
 		execdrv.Guard(o, func() { failedTxCase(o, ci, nHeights) })
 	}
-	for v := 0; v < 3; v++ {
-		execdrv.Guard(o, func() { failedEventsCase(o, v) })
-	}
 	indexVariants := 3
 	if o.Tier == "thorough" || o.Search {
 		indexVariants = 10
 	}
 	for v := 0; v <= indexVariants; v++ {
 		execdrv.Guard(o, func() { indexWritingCase(o, v) })
+	}
+	for v := 0; v < 3; v++ {
+		execdrv.Guard(o, func() { failedEventsCase(o, v) })
 	}
 	execdrv.Guard(o, func() { slashThenFailCase(o) })
 	execdrv.Guard(o, func() { paramCacheCases(o) })
@@ -360,6 +360,7 @@ func eventsOfSuccessfulOnly(o *drv.Out, A *node.Node, h uint64, p *execdrv.Propo
 //
 //	h1: create-order (sell order on committee 2) + certificate results (nested height 1): checkpoint 100, evidence {validator 0, height 1}
 //	h2: the failing certificate results (nested height 2) carrying the lock order, alone (variants 0, 1)
+//	    or followed by a forged-signature send (variant 2): the block is empty
 //	h3: send + the same lock order in certificate results that succeed (checkpoint 150): control, the
 //	    block's events contain the order-book-lock event
 //	h4: send only
